@@ -215,6 +215,12 @@ def d2(cx: Cx, ob: Ob) -> None:
             saw_loop = True
             lp = ctx.loops[0]
             ob.site(f"{where(hh, line)} {hh.qualname}", f"return {show(t)[:60]}")
+            fast = op(lp.b) in ("new", "list", "tuple") and any(g.kind == "guard" and any(op(x) == "cmp" and x[1] in ("in", "not in") and x[3] == header and is_const(x[2]) for x in subterms(g.a)) for g in ctx.guards)
+            if fast:
+                # a shortcut for headers without list / parameter separators: that the display it iterates is what
+                # parse_header would return for such a header is a statement about parse_header, not a shape
+                ob.undecide(f"handle_header iterates `{show(lp.b)[:40]}` instead of parse_header(header) for headers that contain no separator: that both give the same candidates is not decided")
+                continue
             if not (op(lp.b) == "call" and lp.b[1] == ("func", f"{U}.parse_header") and lp.b[2] == (header,)):
                 ob.violate(hh.qualname, where(hh, lp.line), f"handle_header iterates `{show(lp.b)[:50]}`, not parse_header(header)", detail="source")
             mapped = ("call", ("attr", ("gconst", U, "CONTENT_TYPE_SYNONYMS"), "get"), (lp.a, lp.a), ())
